@@ -185,6 +185,8 @@ def run(ctx: Ctx) -> int:
     ctx.register_matcher("base-reexported-by-several-modules", kf_base_is_multi_reexported)
     discover_phase(ctx, rng)
     projs = families.all_projects(ctx.quick)
+    # bases that can only be resolved once an import cycle is closed and whose name is rebound further down (hierarchy only)
+    projs += [p for p in families.t_c04_cycles() if p["meta"].get("shape") == "cycle-then-rebound"]
     if not ctx.quick:
         projs += [families.random_project(rng, rng.randint(3, 6)) for _ in range(250)]
     projs = [p for p in projs if len(P.schedules(p)) <= 120]
